@@ -249,6 +249,14 @@ def run(check):
                    "(hidden / git-ignored / tools/typeshare directory), next to 1-3 ordinary annotated files, single-file and "
                    "folder output, relative / absolute roots")
     arrival_part(check, cli_bad, cli_good)
+    check.rule += ("; positional-members part: tuple structs and tuple variants with 1-4 positional members, every subset of the "
+                   "positions carrying a skip marker (serde(skip) / typeshare(skip) / merged with other serde arguments / "
+                   "cfg(target_os) that does or does not match --target-os), the unsupported construct (64-bit integer / tuple "
+                   "under 0-3 wrappers, or through serialized_as) at each position or nowhere, generic and plain items, the "
+                   "variant itself skipped or not; parser::parse against the model, in-process generation in all six languages, "
+                   "the binary with --target-os over a pre-existing destination")
+    positional_members_part(check)
+    replay_positional_skip(check)
     check.assumptions += ["the generator plants one construct into programs the generator itself considers valid; validity is confirmed by the skipped twin being accepted"]
 
 
@@ -595,3 +603,326 @@ def arrival_part(check, bad, good):
                     model={"as_plain_files": show(p0)}, failing_input=True)
                 reported += 1
                 break
+
+
+# ----------------------------------------------------------------------------- positional members with skip markers
+
+POS_WAYS = ["serde", "typeshare", "serde-merged", "serde-split", "cfg", "cfg-not"]
+POS_GOOD = ["String", "u8", "bool", "f64", "i16", "u32", "char", "i8"]
+POS_TARGETS = [["ios"], ["ios"], ["ios"], ["ios", "macos"], ["android"], ["macos", "android"], []]
+
+
+def pos_marker(rng, way):
+    """-> (attributes of the member, f(target_os) -> is the member skipped under that --target-os list)"""
+    if way == "serde":
+        return [m_list("serde", [m_path("skip")])], lambda tos: True
+    if way == "typeshare":
+        return [m_list("typeshare", [m_path("skip")])], lambda tos: True
+    if way == "serde-merged":
+        args = [m_path("skip"), m_path("default")]
+        rng.shuffle(args)
+        return [m_list("serde", args)], lambda tos: True
+    if way == "serde-split":
+        attrs = [m_list("serde", [m_path("default")]), m_list(rng.choice(["serde", "typeshare"]), [m_path("skip")])]
+        rng.shuffle(attrs)
+        return attrs, lambda tos: True
+    if way == "cfg":
+        # documented: with --target-os, a member whose cfg(target_os = ..) names none of the targets is left out
+        return [m_list("cfg", [m_nv("target_os", lit_s("android"))])], lambda tos: bool(tos) and "android" not in tos
+    if way == "cfg-not":
+        return [m_list("cfg", [m_list("not", [m_nv("target_os", lit_s("ios"))])])], lambda tos: "ios" in tos
+    raise ValueError(way)
+
+
+def pos_neighbour(rng, k):
+    if rng.random() < 0.5:
+        return {"kind": "struct", "attrs": [m_path("typeshare")], "ident": "Neighbour%d" % k, "generics": [],
+                "fields": ("named", [field([], "name", t_path("String")), field([], "age", t_path("u32"))])}
+    return {"kind": "enum", "attrs": [m_path("typeshare")], "ident": "Neighbour%d" % k, "generics": [],
+            "variants": [{"attrs": [], "ident": v, "fields": ("unit",)} for v in ("Red", "Green")]}
+
+
+def pos_file(rng, shape, members, generic, variant_attrs, before, after):
+    """members: list of (attrs, type); -> abstract file with the probe item `Probe` among `before` + `after` neighbours.
+    The enum around a tuple variant carries serde(tag, content) exactly when a variant with data is left on the wire (the probed
+    variant, unless it is skipped itself, or a newtype / struct variant next to it): tag/content on what is a unit enum is an
+    unsupported construct of its own."""
+    fs = ("unnamed", [field(list(a), None, t) for a, t in members])
+    gens = [("ty", "T")] if generic else []
+    if shape == "struct":
+        probe = {"kind": "struct", "attrs": [m_path("typeshare")], "ident": "Probe", "generics": gens, "fields": fs}
+    else:
+        vs = list(before["variants"]) + [{"attrs": list(variant_attrs), "ident": "Probed", "fields": fs}] + list(after["variants"])
+        data = not variant_attrs or any(v["fields"][0] != "unit" for v in before["variants"] + after["variants"])
+        keys = [m_list("serde", [m_nv("tag", lit_s("t")), m_nv("content", lit_s("c"))])] if data else []
+        probe = {"kind": "enum", "attrs": [m_path("typeshare")] + keys, "ident": "Probe", "generics": gens, "variants": vs}
+    return {"attrs": [], "items": list(before["items"]) + [probe] + list(after["items"])}
+
+
+def gen_rejected(a):
+    return "ok" not in a
+
+
+def replay_positional_skip(check):
+    """open finding skip-on-positional-member-ignored: the skip markers of *positional* members are not consulted - the sole member of a
+    newtype struct / variant is taken whatever it carries, so moving an unsupported construct under serde(skip) there does not make the
+    run succeed again (the property's last sentence)"""
+    srcs = ["#[typeshare]\npub struct S(#[serde(skip)] u64);\n",
+            "#[typeshare]\n#[serde(tag = \"t\", content = \"c\")]\npub enum E { A(#[typeshare(skip)] (u8, u8)), B(u8) }\n"]
+    reqs = [{"op": "parse", "src": s, "crate": "", "file_name": "o", "path": "src/lib.rs"} for s in srcs]
+    for s, a in zip(srcs, runner(reqs)):
+        check.saw(("positional-skip-witness", s), nontrivial=True)
+        rejected = "err" in a or bool((a.get("ok") or {}).get("errors"))
+        if rejected:
+            if not check.known("skip-on-positional-member-ignored", {"source": s, "answer": str(a)[:400]}):
+                check.violation("an unsupported construct in a *skipped* positional member is still reported: %s" % s.replace("\n", " "),
+                                case={"source": s}, impl=a, failing_input=True)
+                return
+
+
+def positional_members_part(check):
+    """Dimension: the *positional* members of an annotated item and which of them are skipped.  Tuple structs and tuple variants
+    with 1-4 positional members; every subset of the positions carries a skip marker (serde(skip), typeshare(skip), skip merged
+    with / next to another serde argument, cfg(target_os = "android") and cfg(not(target_os = "ios")) - which are skip markers
+    only under a --target-os list that makes them so; every list is tried: matching, not matching, absent); the remaining
+    positions sometimes carry an attribute that only looks like a skip marker; the unsupported construct (u64 / i64 / usize /
+    isize / a tuple, under 0-3 wrappers, or named by serialized_as on the member) sits at each position in turn, skipped or not,
+    or nowhere (the base program); supported members have pairwise different types (and PhantomData<T> / T in the generic version
+    of the item) so the output shows which member was taken; the tuple variant stands first / in the middle / last among unit,
+    newtype and struct variants and is also tried with the variant itself skipped; 0-2 ordinary annotated items before and after.
+
+    With `live` = the members that are NOT skipped under the given --target-os, the property demands of the implementation
+    (parser::parse in-process, generate_types in-process in all six languages, and the binary):
+      (1) two or more live members ("tuple struct / variant with several fields", documented as unsupported): rejected;
+      (2) the unsupported construct in a live member: rejected - never silently accepted, whatever stands in the skipped members;
+      (3) exactly one live member and nothing unsupported in it: what stands in the *skipped* members does not matter - the
+          verdict is the verdict of the base program (same markers, supported types everywhere), and an accepted program yields
+          exactly the parsed data / the generated text of the program with the skipped members deleted (so a skipped member's
+          type is never what is generated);
+      (4) the tuple variant itself skipped: accepted, and nothing of it in the parsed data.
+    Items all of whose members are skipped are counted, nothing is demanded of them (there is no wire form to describe).
+    Also compared: parser::parse = Visitor.parseFile of the model on every program (broken correspondence, no failing input)."""
+    rng = check.rng
+    rounds = 24 if check.thorough else 4
+    g = Gen(rng)
+    cases = []
+    for rnd in range(rounds):
+        for shape in ("struct", "variant"):
+            for n in (1, 2, 3, 4):
+                for mask in range(1 << n):
+                    marked = [i for i in range(n) if mask >> i & 1]
+                    ways = {i: rng.choice(POS_WAYS) for i in marked}
+                    tos = rng.choice(POS_TARGETS) if any(w.startswith("cfg") for w in ways.values()) or rng.random() < 0.15 else []
+                    generic = rng.random() < 0.35
+                    good = rng.sample(POS_GOOD, n)
+                    members, rules = [], []
+                    for i in range(n):
+                        if i in ways:
+                            attrs, rule = pos_marker(rng, ways[i])
+                            ty = t_path("PhantomData", [t_path("T")]) if generic and rng.random() < 0.5 else t_path(good[i])
+                        else:
+                            attrs, rule = ([rng.choice(LOOKALIKES)] if rng.random() < 0.15 else []), (lambda tos: False)
+                            ty = t_path("T") if generic and rng.random() < 0.4 else t_path(good[i])
+                        members.append((attrs, ty))
+                        rules.append(rule)
+                    live = [i for i in range(n) if not rules[i](tos)]
+                    variant_skipped = shape == "variant" and rng.random() < 0.12
+                    vattrs = pos_marker(rng, rng.choice(POS_WAYS[:4]))[0] if variant_skipped else []
+                    if shape == "variant":
+                        pool = [{"attrs": [], "ident": "Plain", "fields": ("unit",)},
+                                {"attrs": [], "ident": "Newtype", "fields": ("unnamed", [field([], None, t_path("String"))])},
+                                {"attrs": [], "ident": "Record", "fields": ("named", [field([], "a", t_path("u8"))])}]
+                        rng.shuffle(pool)
+                        cut = rng.randint(0, 3)
+                        vb, va = pool[:cut][:rng.randint(0, 2)], pool[cut:][:rng.randint(0, 2)]
+                        if variant_skipped and not vb + va:
+                            va = [pool[0]]          # an enum is left when the probed variant is gone
+                    else:
+                        vb = va = []
+                    before = {"items": [pos_neighbour(rng, k) for k in range(rng.randint(0, 2))], "variants": vb}
+                    after = {"items": [pos_neighbour(rng, 5 + k) for k in range(rng.randint(0, 2))], "variants": va}
+                    group = []
+                    for bad_at in [None] + list(range(n)):
+                        ms = [(list(a), t) for a, t in members]
+                        planted = None
+                        if bad_at is not None:
+                            bad = wrap(rng, bad_leaf(rng), rng.randint(0, 3))
+                            if rng.random() < 0.2:
+                                text_ = render_type(bad)
+                                g.ext[text_] = bad
+                                ms[bad_at] = (ms[bad_at][0] + [m_list("typeshare", [m_nv("serialized_as", lit_s(text_))])], ms[bad_at][1])
+                                planted = "serialized_as = %r" % text_
+                            else:
+                                ms[bad_at] = (ms[bad_at][0], bad)
+                                planted = render_type(bad)
+                        f = pos_file(rng, shape, ms, generic, vattrs, before, after)
+                        if variant_skipped:
+                            expect = "accept"
+                        elif len(live) >= 2:
+                            expect = "reject-several"
+                        elif bad_at is not None and bad_at in live:
+                            expect = "reject-unsupported"
+                        elif len(live) == 1:
+                            expect = "as-base"
+                        else:
+                            expect = "nothing-live"
+                        # the same item with the skipped members deleted (what an accepted program has to generate)
+                        reduced = pos_file(rng, shape, [ms[i] for i in live], generic, vattrs, before, after) if live else None
+                        mreq, rreq, text = l1.requests(f, g, target_os=tos)
+                        c = dict(shape=shape, n=n, marked=marked, ways=[ways.get(i) for i in range(n)], tos=tos, live=live, bad_at=bad_at,
+                                 planted=planted, expect=expect, file=f, reduced=reduced, m=mreq, r=rreq, text=text, generic=generic,
+                                 variant_skipped=variant_skipped, group=group)
+                        group.append(c)
+                        cases.append(c)
+    # ext_sx grows while programs are drawn: every model request gets the final table
+    for c in cases:
+        c["m"][2] = g.ext_sx()
+    mans, rans, diffs = l1.compare([(c["m"], c["r"]) for c in cases])
+    greqs = []
+    for c in cases:
+        for lang in LANGS:
+            greqs.append({"op": "generate", "lang": lang, "config": pos_cfg(lang), "multi_file": False, "target_os": list(c["tos"]),
+                          "files": [{"src": c["text"], "crate": "", "file_name": "out", "path": "src/lib.rs"}]})
+    gans = runner(greqs)
+    for k, (c, ma, ra) in enumerate(zip(cases, mans, rans)):
+        c["model"], c["impl"] = ma, ra
+        c["gen"] = dict(zip(LANGS, gans[k * len(LANGS):(k + 1) * len(LANGS)]))
+
+    def describe(c):
+        return ("tuple %s with %d positional member(s), skip marker on position(s) %s (%s)%s, --target-os %s => live member(s) %s; "
+                "unsupported construct %s" % (
+                    c["shape"], c["n"], c["marked"] or "none", ", ".join(w for w in c["ways"] if w) or "-",
+                    ", the variant itself skipped" if c["variant_skipped"] else "", " ".join(c["tos"]) or "(none)", c["live"] or "none",
+                    "nowhere" if c["bad_at"] is None else "`%s` at position %d (%s)" % (
+                        c["planted"], c["bad_at"], "live" if c["bad_at"] in c["live"] else "skipped")))
+
+    def case_of(c, **more):
+        d = {"source": c["text"], "target_os": c["tos"], "shape": describe(c), "request": c["r"],
+             "replay": "typeshare --lang typescript -o out.ts <dir with the source as src/lib.rs>%s" % (
+                 " --target-os " + " ".join(c["tos"]) if c["tos"] else "")}
+        d.update(more)
+        return d
+
+    found = []          # (size, kind of finding, text of the report, case, impl, model)
+    followups = []
+    for c in cases:
+        key = "%s n=%d live=%s %s" % (c["shape"] + ("(itself skipped)" if c["variant_skipped"] else ""), c["n"],
+                                      min(len(c["live"]), 2) if len(c["live"]) < 2 else "2+", "nothing-unsupported" if c["bad_at"] is None else
+                                      "unsupported-in-live" if c["bad_at"] in c["live"] else "unsupported-in-skipped")
+        check.saw(("positional", c["text"], tuple(c["tos"])), nontrivial=c["expect"].startswith("reject"))
+        check.count("positional-" + c["shape"])
+        check.count("positional-expect-" + c["expect"])
+        for w in c["ways"]:
+            if w:
+                check.count("positional-marker-" + w)
+        check.count("positional-target-os-" + ("+".join(c["tos"]) or "none"))
+        acc = not rejected(c["impl"])
+        gen_acc = [l for l in LANGS if not gen_rejected(c["gen"][l])]
+        check.count("positional-observed %s: %s" % (key, "accepted" if acc else "rejected"))
+        shown = {l: list(c["gen"][l]["ok"].values())[0][-600:] for l in gen_acc}
+        if c["expect"].startswith("reject"):
+            why = ("%d positional members are not skipped (several fields: unsupported)" % len(c["live"]) if c["expect"] == "reject-several"
+                   else "the unsupported construct stands in a member that is not skipped")
+            if acc:
+                found.append((len(c["text"]), "accepted", "parser::parse accepts a %s without an error although %s" % (describe(c), why),
+                              case_of(c), {"parse": c["impl"], "generated": shown}, c["model"]))
+            elif gen_acc:
+                found.append((len(c["text"]), "generated", "in-process generation (%s) succeeds for a %s although %s" % (
+                    ", ".join(gen_acc), describe(c), why), case_of(c), {"parse": c["impl"], "generated": shown}, c["model"]))
+        elif c["expect"] == "accept":
+            if not acc or len(gen_acc) != len(LANGS):
+                found.append((len(c["text"]), "skipped-variant", "a %s is rejected although the variant that holds the positional members is skipped "
+                              "(parse: %s; generated in: %s)" % (describe(c), "accepted" if acc else "rejected", gen_acc or "no language"),
+                              case_of(c), {"parse": c["impl"], "generate": {l: c["gen"][l] for l in LANGS if l not in gen_acc}}, c["model"]))
+            elif "Probed" in json.dumps(c["impl"]):
+                found.append((len(c["text"]), "skipped-variant", "a %s: the skipped variant shows in the parsed data" % describe(c), case_of(c), c["impl"], c["model"]))
+        elif c["expect"] == "as-base":
+            base = c["group"][0]
+            if c is not base and (acc, gen_acc) != (not rejected(base["impl"]), [l for l in LANGS if not gen_rejected(base["gen"][l])]):
+                found.append((len(c["text"]), "skipped-member-decides", "what stands in a SKIPPED member decides: a %s is %s, the same program with a supported "
+                              "type in that member is %s" % (describe(c), "accepted" if acc else "rejected",
+                                                             "accepted" if not rejected(base["impl"]) else "rejected"),
+                              case_of(c, base_program=base["text"]), {"parse": c["impl"], "generated": shown},
+                              {"base_program_parse": base["impl"]}))
+            if (acc or gen_acc) and c["n"] > 1:
+                followups.append(c)
+        else:
+            check.count("positional-nothing-live-" + ("accepted" if acc else "rejected"))
+    # (3), second half: an accepted program with one live member among skipped ones = the program with the skipped members deleted
+    if followups:
+        freqs = []
+        for c in followups:
+            text = render_file(c["reduced"])
+            c["reduced_text"] = text
+            freqs.append({"op": "parse", "src": text, "crate": "", "file_name": "out.ts", "path": "src/lib.rs", "target_os": list(c["tos"]),
+                          "multi_file": False, "ignored_types": []})
+            for lang in LANGS:
+                freqs.append({"op": "generate", "lang": lang, "config": pos_cfg(lang), "multi_file": False, "target_os": list(c["tos"]),
+                              "files": [{"src": text, "crate": "", "file_name": "out", "path": "src/lib.rs"}]})
+        fans = runner(freqs)
+        for k, c in enumerate(followups):
+            part = fans[k * (1 + len(LANGS)):(k + 1) * (1 + len(LANGS))]
+            check.count("positional-compared-with-skipped-members-deleted")
+            differing = (["parsed data"] if part[0] != c["impl"] else []) + [l for l, a in zip(LANGS, part[1:]) if a != c["gen"][l]]
+            if differing:
+                l_ = next((l for l in LANGS if l in differing), None)
+                found.append((len(c["text"]), "not-the-live-member", "a %s is accepted but does not give what the same item with the skipped members deleted "
+                              "gives (%s differ)" % (describe(c), ", ".join(differing)),
+                              case_of(c, skipped_members_deleted=c["reduced_text"]),
+                              {"parse": c["impl"], "generated": {l_: c["gen"][l_]} if l_ else None},
+                              {"skipped_members_deleted_parse": part[0], "generated": {l_: part[1 + LANGS.index(l_)]} if l_ else None}))
+    if found:
+        # the shortest failing program of each kind of finding, at most three reports
+        seen = set()
+        order = ["accepted", "generated", "skipped-member-decides", "not-the-live-member", "skipped-variant"]
+        for size, kind, what, case, impl, mod_ in sorted(found, key=lambda t: (order.index(t[1]), t[0], t[2])):
+            if kind in seen or len(seen) >= 3:
+                continue
+            seen.add(kind)
+            check.violation(what, case=case, impl=impl, model=mod_, failing_input=True)
+    else:
+        for i in diffs:
+            c = cases[i]
+            check.violation("parser::parse differs from the model on a %s: %s" % (describe(c), l1.first_diff(c["model"], c["impl"])),
+                            case=case_of(c), impl=c["impl"], model=c["model"], failing_input=False,
+                            broken="correspondence L1 parser::parse (theorems TsV.C08.*)")
+            break
+    # --- the binary: --target-os reaches the members; a rejected program leaves a pre-existing destination alone
+    must = [c for c in cases if c["expect"].startswith("reject")]
+    with_os = [c for c in must if c["tos"]]
+    k = 24 if check.thorough else 6
+    picks = rng.sample(with_os, min(k // 2, len(with_os))) + rng.sample(must, min(k - k // 2, len(must)))
+    for idx, c in enumerate(picks):
+        lang = LANGS[idx % len(LANGS)]
+        with Scratch() as sc:
+            sc.write("proj/src/lib.rs", c["text"])
+            sc.write("proj/src/ok.rs", "#[typeshare]\npub struct Fine { pub a: u8 }\n")
+            out = sc.path("out." + EXT[lang])
+            with open(out, "w") as fh:
+                fh.write("PRE-EXISTING\n")
+            before_ = snapshot(sc.dir)
+            args = ["--lang", lang, "-o", out] + lang_args(lang) + [sc.path("proj")] + ((["--target-os"] + c["tos"]) if c["tos"] else [])
+            r = run_cli(args, cwd=sc.dir)
+            after_ = snapshot(sc.dir)
+            check.saw(("positional-cli", lang, c["text"], tuple(c["tos"])), nontrivial=True)
+            check.count("positional-cli" + ("-with-target-os" if c["tos"] else ""))
+            problems = []
+            if r["timed_out"]:
+                problems.append("timed out")
+            elif r["rc"] == 0:
+                problems.append("exit status 0")
+            if after_ != before_:
+                problems.append("files changed: %s" % sorted(k_ for k_ in set(after_) | set(before_) if after_.get(k_) != before_.get(k_)))
+            if not r["timed_out"] and r["rc"] != 0 and "lib.rs" not in r["err"] + r["out"]:
+                problems.append("diagnostic does not name the file")
+            if problems:
+                check.violation("CLI on a %s (%s): %s" % (describe(c), lang, "; ".join(problems)),
+                                case=case_of(c, lang=lang, command="typeshare " + " ".join(args).replace(sc.dir, "<workspace>")),
+                                impl={"rc": r["rc"], "stderr": r["err"][-2000:],
+                                      "destination_after": open(out, errors="replace").read()[-1500:] if os.path.exists(out) else None},
+                                failing_input=True)
+                break
+
+
+def pos_cfg(lang):
+    return {"type_mappings": {}, "version_header": False, "package": "proto" if lang == "go" else "com.example", "module_name": "", "prefix": ""}
